@@ -117,6 +117,10 @@ func (self AnalyzedLetStatement) String() string {
 	if self.IsPub {
 		pub = "pub "
 	}
+	// `never` and `unknown` are types of the analysis, they cannot be written in a program
+	if self.VarType.Kind() == NeverTypeKind || self.VarType.Kind() == UnknownTypeKind {
+		return fmt.Sprintf("%slet %s = %s;", pub, self.Ident, self.Expression)
+	}
 	return fmt.Sprintf("%slet %s: %s = %s;", pub, self.Ident, self.VarType, self.Expression)
 }
 func (self AnalyzedLetStatement) Type() Type { return NewNullType(self.Range) }
